@@ -713,3 +713,83 @@ def r14_6(ctx, repo):
                        'exactly one likelihood is appended per ID, in the '
                        'order of the IDs')
     ctx.floor(rule, 2)
+
+
+# -----------------------------------------------------------------------------
+# R14.7 — the population model is told the number of individuals whenever
+# the set of individuals changes (must-pass-through on the paths of the
+# method, engine G)
+# -----------------------------------------------------------------------------
+def r14_7(ctx, repo):
+    """Role discovery: a class that somewhere calls
+    `self.P.set_n_ids(len(self.F))` keeps a population model P and the
+    individuals F.  Every public method of that class that assigns F reaches
+    each normal exit only after `self.P.set_n_ids(..)` has been called since
+    the assignment — unless P is None on that path."""
+    from ..pathwalk import Walker
+    rule = 'R14.7'
+    n = 0
+    for cname, c in sorted(repo.classes.items()):
+        pairs = set()
+        for fn in c.methods.values():
+            for call in ast.walk(fn):
+                if isinstance(call, ast.Call) and isinstance(
+                        call.func, ast.Attribute) \
+                        and call.func.attr == 'set_n_ids' and call.args \
+                        and U(call.func.value).startswith('self.') \
+                        and isinstance(call.args[0], ast.Call) \
+                        and U(call.args[0].func) == 'len' \
+                        and call.args[0].args \
+                        and U(call.args[0].args[0]).startswith('self.'):
+                    pairs.add((U(call.func.value),
+                               U(call.args[0].args[0])))
+        for P, F in sorted(pairs):
+            for mname, fn in sorted(c.methods.items()):
+                if mname.startswith('_'):
+                    continue
+                writes = [a for a in ast.walk(fn) if isinstance(a, ast.Assign)
+                          and any(U(t) == F for t in a.targets)]
+                if not writes:
+                    continue
+
+                class W(Walker):
+                    def on_assign(self, target, value, st, frame):
+                        if U(target) == F:
+                            st.ts['written'] = True
+                            st.ts['told'] = False
+                        if U(target) == P:
+                            st.env.pop(P + ' is None', None)
+
+                    def on_call(self, call, st, frame):
+                        if isinstance(call.func, ast.Attribute) \
+                                and call.func.attr == 'set_n_ids' \
+                                and U(call.func.value) == P:
+                            st.ts['told'] = True
+                        # helpers are not followed: the obligation is local
+                        # to the method that replaces the individuals
+                        return 'handled'
+                w = W(repo, cname)
+                exits = w.run(mname)
+                n += 1
+                construct = '%s.%s' % (cname, mname)
+                where = repo.loc(writes[0], cname, mname)
+                bad = [s for s in exits if s.ts.get('written')
+                       and not s.ts.get('told')
+                       and s.env.get(P + ' is None') is not True
+                       and s.env.get(P) is not False]
+                if bad:
+                    ctx.violation(
+                        rule, where, construct,
+                        'individuals changed, %s not told' % P,
+                        '%s assigns `%s` and reaches an exit without '
+                        '`%s.set_n_ids(len(%s))` on a path where `%s` is '
+                        'not known to be None: the population model keeps '
+                        'the previous number of individuals, so counts, '
+                        'names and the hierarchical vector disagree with '
+                        'the data' % (construct, F, P, F, P))
+                else:
+                    ctx.ok(rule, where, construct,
+                           'every exit after the assignment of `%s` has '
+                           'told `%s` the number of individuals (or it is '
+                           'None)' % (F, P), paths=len(exits))
+    ctx.floor(rule, 1)
